@@ -53,6 +53,12 @@ def run(rep, ctx):
         borrow(rep, c19.r1b_mechanism, ctx, "C19.R1b", "C16.R6")
     except AnalysisError as e:
         rep.error("C16.R6", str(e))
+    from . import c14
+    rep.rule("C16.R9", "AddCategory rewrites legacy spellings in the list it registers and takes the default unit from that rewritten list: nothing of the caller's or another category's list is edited on a rejected call (shared with C14.R2)")
+    try:
+        borrow(rep, c14.r2_check_before_write, ctx, "C14.R2", "C16.R9", keep=lambda o: o.key.startswith("AddCategory"))
+    except AnalysisError as e:
+        rep.error("C16.R9", str(e))
     from . import c05
     rep.rule("C16.R8", "the legacy rewrite in Quantity's constructor is reached whenever the spelling as given is refused: CheckCategoryUnit raises for every pair without a positive verdict, memoised or not (shared with C05.R3)")
     try:
